@@ -202,7 +202,16 @@ int main(void)
 		}
 		for (i = 0; i < n; i++) {
 			enc_tab[i] = malloc(L ? L : 1);
-			if (i < (UINT32)k) { orig[i] = malloc(L ? L : 1); for (j = 0; j < (UINT32)L; j++) orig[i][j] = ((unsigned char *)enc_tab[i])[j] = (unsigned char)sm_next(); }
+			if (i < (UINT32)k) {
+				/* payload: random bytes; one block in eight is degenerate - all zero, all 0xFF, or every source symbol equal to the first */
+				int pm = (int)(seed % 8 == 0 ? 1 + (seed / 8) % 3 : 0);
+				orig[i] = malloc(L ? L : 1);
+				for (j = 0; j < (UINT32)L; j++) {
+					unsigned char b = (unsigned char)sm_next();
+					if (pm == 1) b = 0; else if (pm == 2) b = 0xFF; else if (pm == 3 && i > 0) b = orig[0][j];
+					orig[i][j] = ((unsigned char *)enc_tab[i])[j] = b;
+				}
+			}
 			else memset(enc_tab[i], 0xEE, L);
 		}
 		fprintf(out, " B");
@@ -234,6 +243,8 @@ int main(void)
 			}
 			for (i = 0; i < n; i++) { recv_tab[i] = malloc(L ? L : 1); memcpy(recv_tab[i], enc_tab[i], L); avail_tab[i] = NULL; }
 			hl_setup = lib_blocks;
+			/* the source table before anything was submitted: every entry must be empty (or the call refused) */
+			{ int empty = 1; fetch_src_tab(dec, k); for (i = 0; i < (UINT32)k; i++) if (src_tab[i] || stale[i]) empty = 0; fprintf(out, " GI%d", empty); }
 			if (api == 0) {
 				for (i = 0; i < (UINT32)nesi; i++) {
 					LIB_BEGIN(); st = of_decode_with_new_symbol(dec, recv_tab[esis[i]], esis[i]); LIB_END();
@@ -264,6 +275,16 @@ int main(void)
 				hl_fin = lib_blocks;
 				fprintf(out, " F%d%d", st, of_is_decoding_complete(dec) ? 1 : 0);
 				print_masks(dec, codec, k, n, 0);
+			}
+			if (role == 5 && (codec == 1 || codec == 2) && of_is_decoding_complete(dec)) {
+				/* role 5: an OF_ENCODER_AND_DECODER Reed-Solomon session serves as an encoder AFTER it decoded the block */
+				void **t2 = calloc(n, sizeof *t2); UINT32 nb = 1 + (UINT32)(seed % 3); int okb = 1;
+				if (nb > (UINT32)r) nb = r;
+				for (i = 0; i < n; i++) { t2[i] = malloc(L ? L : 1); if (i < (UINT32)k) memcpy(t2[i], enc_tab[i], L); else memset(t2[i], 0x33, L); }
+				for (i = n - nb; i < n; i++) { of_status_t bs; LIB_BEGIN(); bs = of_build_repair_symbol(dec, t2, i); LIB_END(); if (bs != OF_STATUS_OK || memcmp(t2[i], enc_tab[i], L)) okb = 0; }
+				for (i = 0; i < n; i++) free(t2[i]);
+				free(t2);
+				fprintf(out, " ED%d", okb);
 			}
 			/* ---------------- verdict on the source table ---------------- */
 			fetch_src_tab(dec, k);
